@@ -1,10 +1,11 @@
 def all_checks():
     from verifkit.checks import concurrency_checks
     from verifkit.checks import engine_checks
+    from verifkit.checks import policy_checks
     from verifkit.checks import reuse_check
 
     checks = {}
-    for mod in (engine_checks, concurrency_checks, reuse_check):
+    for mod in (engine_checks, concurrency_checks, reuse_check, policy_checks):
         for c in mod.CHECKS:
             checks[c.id] = c
     return checks
